@@ -164,8 +164,8 @@ class SystemOfShapes:
         J = sympy.zeros(N, N)
         for i, sym in enumerate(self.x_):
             expr = self.c_[i]
-            for v in self.A_[i, :]:
-                expr += v
+            for k, v in enumerate(self.A_[i, :]):
+                expr += v * self.x_[k]
             for j, sym2 in enumerate(self.x_):
                 J[i, j] = sympy.diff(expr, sym2)
         return J
